@@ -421,6 +421,111 @@ func genOracle(out string) {
 	writeIfChanged(filepath.Join(out, "Oracle.v"), b.Bytes())
 }
 
+// exported function signatures of a package file, with string and []byte
+// both rendered as B (the two packages must export the same set)
+func exportsOf(dir string) []string {
+	var out []string
+	files, _ := filepath.Glob(filepath.Join(dir, "*.go"))
+	for _, path := range files {
+		if strings.HasSuffix(path, "_test.go") {
+			continue
+		}
+		src, err := os.ReadFile(path)
+		if err != nil {
+			die("%v", err)
+		}
+		head := string(src)
+		if i := strings.Index(head, "\npackage "); i >= 0 {
+			head = head[:i]
+		}
+		if strings.Contains(head, "//go:build verif") || strings.Contains(head, "//go:build ignore") {
+			continue // verification hooks and generator scripts are not part of the product API
+		}
+		out = append(out, exportsOfFile(path)...)
+	}
+	sort.Strings(out)
+	return out
+}
+
+func exportsOfFile(path string) []string {
+	f := parseFile(path)
+	var out []string
+	typ := func(e ast.Expr) string {
+		var b bytes.Buffer
+		var rec func(e ast.Expr)
+		rec = func(e ast.Expr) {
+			switch x := e.(type) {
+			case *ast.Ident:
+				if x.Name == "string" {
+					b.WriteString("B")
+				} else {
+					b.WriteString(x.Name)
+				}
+			case *ast.ArrayType:
+				if id, ok := x.Elt.(*ast.Ident); ok && id.Name == "byte" && x.Len == nil {
+					b.WriteString("B")
+				} else {
+					b.WriteString("[]")
+					rec(x.Elt)
+				}
+			case *ast.StarExpr:
+				b.WriteString("*")
+				rec(x.X)
+			case *ast.SelectorExpr:
+				rec(x.X)
+				b.WriteString("." + x.Sel.Name)
+			default:
+				b.WriteString("?")
+			}
+		}
+		rec(e)
+		return b.String()
+	}
+	fields := func(fl *ast.FieldList) string {
+		if fl == nil {
+			return ""
+		}
+		var parts []string
+		for _, fd := range fl.List {
+			n := len(fd.Names)
+			if n == 0 {
+				n = 1
+			}
+			for i := 0; i < n; i++ {
+				parts = append(parts, typ(fd.Type))
+			}
+		}
+		return strings.Join(parts, ",")
+	}
+	for _, d := range f.Decls {
+		fd, ok := d.(*ast.FuncDecl)
+		if !ok || fd.Recv != nil || !fd.Name.IsExported() {
+			continue
+		}
+		out = append(out, fd.Name.Name+"("+fields(fd.Type.Params)+")"+fields(fd.Type.Results))
+	}
+	sort.Strings(out)
+	return out
+}
+
+func genExports(repo, out string) {
+	var b bytes.Buffer
+	b.WriteString("(* GENERATED by /verif/tools/gen from /repo's working tree. Do not edit. *)\nFrom Coq Require Import String List.\nImport ListNotations.\nOpen Scope string_scope.\n\n")
+	for _, p := range []struct{ path, name string }{{".", "strcase_funcs"}, {"bytcase", "bytcase_funcs"}} {
+		fmt.Fprintf(&b, "(* exported functions of package directory %s; string and []byte rendered as B *)\nDefinition %s : list string := [\n", p.path, p.name)
+		ex := exportsOf(filepath.Join(repo, p.path))
+		for i, e := range ex {
+			sep := ";"
+			if i == len(ex)-1 {
+				sep = ""
+			}
+			fmt.Fprintf(&b, "  %q%s\n", e, sep)
+		}
+		b.WriteString("].\n\n")
+	}
+	writeIfChanged(filepath.Join(out, "Exports.v"), b.Bytes())
+}
+
 func main() {
 	repo := flag.String("repo", "/repo", "repository working tree")
 	out := flag.String("out", "/verif/coq/gen", "output directory")
@@ -440,4 +545,5 @@ func main() {
 	genTables(*repo, *out, "tables_go116.go", "Tables116", meta["tables_go116.go"])
 	genConsts(*repo, *out)
 	genOracle(*out)
+	genExports(*repo, *out)
 }
